@@ -660,8 +660,10 @@ static int apply(struct vthread *t, int spurious, int inl)
     case OP_FWD:
         nfwd++;
         if (o->a >= 0 && o->a < nvhosts && (o->b == SIGKILL || ((o->b == SIGTERM || o->b == SIGINT) &&
-                                                                 !vhosts[o->a].ignoreterm)))
-            if (vhosts[o->a].death > vclock) vhosts[o->a].death = vclock;
+                                                                 !vhosts[o->a].ignoreterm))) {
+            long when = vclock + (o->b == SIGKILL ? 0 : vhosts[o->a].termgrace);
+            if (vhosts[o->a].death > when) vhosts[o->a].death = when;
+        }
         if (!q) { evhdr(t, inl); fprintf(stdout, "fwd %ld %ld\n", o->a, o->b); }
         o->ret = 0;
         return 1;
@@ -1166,6 +1168,7 @@ int main(int argc, char **argv)
         } else if (h && !strcmp(k, "rc")) h->destroy_rc = atoi(v);
         else if (h && !strcmp(k, "life")) { h->life = atol(v); h->life_set = 1; }
         else if (h && !strcmp(k, "ignoreterm")) h->ignoreterm = atoi(v);
+        else if (h && !strcmp(k, "termgrace")) h->termgrace = atol(v);
         else if (h && !strcmp(k, "destroyhang")) h->destroy_hang = atoi(v);
         else if (h && (!strcmp(k, "out") || !strcmp(k, "err"))) {
             struct script *s = &h->s[k[0] == 'e'];
